@@ -1075,13 +1075,14 @@ def oracle(case, impl):
                     continue
                 sgn = 1.0 if np.dot(S0[:, m], S1[:, m]) >= 0 else -1.0
                 ssc = max(np.abs(S0[:, m]).max(), 1e-300)
-                if np.abs(S0[:, m] - sgn * S1[:, m]).max() > 1e-5 * ssc:
+                ptol = 1e-5 * max(1.0, 1e-4 * sc / nu0[m])  # conditioned on ν_max/ν_m (eigenvector sensitivity)
+                if np.abs(S0[:, m] - sgn * S1[:, m]).max() > ptol * ssc:
                     bad("permutation", f"order {f['order']}: scores of component {m} change (beyond sign)", causes=causes)
                     break
                 for q, p in enumerate(f["order"]):
                     a = np.asarray(f0["psi"][p], dtype=float)[m]
                     b = np.asarray(f["psi"][q], dtype=float)[m]
-                    if not (_finite(a) and _finite(b)) or np.abs(a - sgn * b).max() > 1e-5 * max(np.abs(a).max(), 1e-300):
+                    if not (_finite(a) and _finite(b)) or np.abs(a - sgn * b).max() > ptol * max(np.abs(a).max(), 1e-300):
                         bad("permutation", f"order {f['order']}: eigenfunction {m}, component {p} changes (beyond sign)", causes=causes)
                         break
                 else:
